@@ -35,12 +35,12 @@ Definition mod_val (x y : val) : option val :=
   | VInt _, VInt _ => Some (arith Mod x y)
   | _, _ => None
   end.
-(* `**` : non-negative integer exponents only (everything else is not exactly representable) *)
+(* `**` : integer exponents 0..64 only (everything else is not exactly representable / astronomically large) *)
 Definition pow_val (x y : val) : option val :=
   match x, y with
   | VNull, _ | _, VNull => Some VNull
-  | VInt a, VInt n => if n <? 0 then None else Some (VInt (Z.pow a n))
-  | VRat a, VInt n => if n <? 0 then None else Some (VRat (Qred (Qpower a n)))
+  | VInt a, VInt n => if (n <? 0) || (64 <? n) then None else Some (VInt (Z.pow a n))
+  | VRat a, VInt n => if (n <? 0) || (64 <? n) then None else Some (VRat (Qred (Qpower a n)))
   | _, _ => None
   end.
 
@@ -146,11 +146,12 @@ Fixpoint corner (e : pexpr) : bool :=
   end.
 
 (* results are shipped to the check as (tag, numerator, denominator): 0 = NULL, 1 = number, 2 = text, 3 = outside the model *)
+Definition huge (z : Z) : bool := Z.pow 2 200 <? Z.abs z.
 Definition ship (v : option val) : N * Z * Z :=
   match v with
   | None => (3%N, 0, 1)
   | Some VNull => (0%N, 0, 1)
-  | Some (VInt z) => (1%N, z, 1)
-  | Some (VRat q) => let r := Qred q in (1%N, Qnum r, Zpos (Qden r))
+  | Some (VInt z) => if huge z then (4%N, 0, 1) else (1%N, z, 1)
+  | Some (VRat q) => let r := Qred q in if huge (Qnum r) || huge (Zpos (Qden r)) then (4%N, 0, 1) else (1%N, Qnum r, Zpos (Qden r))
   | Some (VStr _) => (2%N, 0, 1)
   end.
